@@ -1280,6 +1280,17 @@ var corpus = []Replay{
 	{Kind: "source", Text: "{a=`\"q`,b=eu,c=z}"}, {Kind: "source", Text: "{a=eu,b=\"`q\",c=z}"}, {Kind: "source", Text: `{a=eu,b=z,c="x,y"}`},
 	{Kind: "source", Text: "{a=\"new\\nline\",b=c}"}, {Kind: "source", Text: `{a=b,c="in\"ner"}`},
 	{Kind: "source", Text: `{a="k=v",b="",c=" "}`}, {Kind: "source", Text: `{a="web ",b=" web ",c="web  "}`},
+	// a value that ends with one / two backslashes, first, in the middle and last in the sorted line (Line() prints it raw: the
+	// scanner must not take the backslash for an escape outside a quoted value); a backslash before , = " in both kinds of value
+	{Kind: "source", Text: `{a="C:\\logs\\",b=h1,c=z}`}, {Kind: "source", Text: `{a=h1,b="C:\\logs\\",c=z}`}, {Kind: "source", Text: `{a=h1,b=z,c="C:\\logs\\"}`},
+	{Kind: "source", Text: `{a="x\\\\",b=h1,c=z}`}, {Kind: "source", Text: `{a=h1,b="x\\\\",c=z}`}, {Kind: "source", Text: `{a=h1,b=z,c="x\\\\"}`},
+	{Kind: "source", Text: `{a=x\,b=y}`}, {Kind: "source", Text: `{a=x\\,b=y,c=z\}`}, {Kind: "source", Text: `{a=\,b=\\}`}, {Kind: "source", Text: `{a=x\"y,b=z}`}, {Kind: "source", Text: `{a=x\=y,b=z}`},
+	{Kind: "source", Text: `{a="x\\,y",b=z}`}, {Kind: "source", Text: `{a="k\\=v",b="\\"}`}, {Kind: "source", Text: `{a="\\ ",b=" \\",c=z}`},
+	{Kind: "stmt", Text: `SELECT FROM {dir="C:\\logs\\",host=h1} LIMIT 1`}, {Kind: "stmt", Text: `TRUNCATE {host=h1,dir="C:\\logs\\",zone=eu}`},
+	{Kind: "stmt", Text: `SHOW PARTITIONS {a=h1,b="x\\\\",c=z}`}, {Kind: "stmt", Text: `DESCRIBE PARTITION {dir="C:\\logs\\",host=h1}`},
+	{Kind: "stmt", Text: `SELECT FROM {dir=C:\logs\,host=h1} WHERE msg contains "x"`},
+	{Kind: "pipe", Text: `CREATE PIPE bs1 FROM {dir="C:\\logs\\",host=h1}`}, {Kind: "pipee2e", Text: `CREATE PIPE bs2 FROM {dir="C:\\logs\\",host=h1} WHERE msg contains "x"`},
+	{Kind: "pipee2e", Text: `CREATE PIPE bs3 FROM {a=h1,b="x\\\\",c=z}`},
 	{Kind: "stmt", Text: `SELECT FROM {host="web ",zone=eu} LIMIT 5`}, {Kind: "stmt", Text: `TRUNCATE {host=eu,zone="web "}`},
 	{Kind: "stmt", Text: `SHOW PARTITIONS {a=" x",b="y ",c=z} LIMIT 3`}, {Kind: "stmt", Text: `DESCRIBE PARTITION {host="web ",zone=eu}`},
 	{Kind: "pipe", Text: `CREATE PIPE p FROM {host="web ",zone=eu}`},
@@ -1323,9 +1334,17 @@ func main() {
 			}
 		}()
 		seq := 0
-		run := func(rp Replay) error {
+		run := func(rp Replay) (rerr error) {
 			var cs *Case
 			var err error
+			// a panic of the code under test on this input is a verdict with this input as its replay, not the end of the run
+			defer func() {
+				if p := recover(); p != nil {
+					c.Add(Case{Replay: rp, Stream: rp.Stream, Coq: GApp("KQuote", "[]", GStr(`""`)), Key: "panic:" + rp.Kind + ":" + rp.Text,
+						Oracle: &Violation{Class: rp.Kind + "-panic", Detail: fmt.Sprintf("%q: the parser / printer panicked: %v", rp.Text, p)}})
+					rerr = nil
+				}
+			}()
 			switch rp.Kind {
 			case "stmt":
 				cs, err = stmtCase(rp)
